@@ -38,10 +38,19 @@ def independent(names):
 
 
 # ------------------------------------------------------------------ game pools
-def malform(rng, g):
+MALFORM_KINDS = ["missing", "succ-range", "final-range", "neg-reward", "short-rewards", "missing-last", "none-row", "tuple-row"]
+
+
+def malform(rng, g, kind=None):
     g = copy.deepcopy(g)
     n = len(g["players"])
-    kind = rng.choice(["missing", "succ-range", "final-range", "neg-reward", "short-rewards", "missing-last", "none-row"])
+    kind = kind or rng.choice(["missing", "succ-range", "final-range", "neg-reward", "short-rewards", "missing-last", "none-row", "tuple-row"])
+    if kind == "tuple-row":
+        # the transitions of one state written as a tuple instead of a list (every transition in it is fine): a batch runner that
+        # copies the description row by row must not 'repair' it on the way
+        s = rng.randrange(n)
+        g["transition_list"][s] = tuple(g["transition_list"][s])
+        return g, kind
     if kind == "none-row":
         # a state whose transitions are not a sized collection (defect D6, repaired): judged by the solo-run
         # predicates only, the typed Coq model cannot represent it
@@ -88,8 +97,8 @@ def pools(ctx, count):
     tagged = []
     for g in wf:
         tagged.append((g, "well-formed"))
-    for g in rng.sample(wf, min(len(wf), max(4, count // 3))):
-        m, kind = malform(rng, g)
+    for i, g in enumerate(rng.sample(wf, min(len(wf), max(4, count // 3)))):
+        m, kind = malform(rng, g, MALFORM_KINDS[i % len(MALFORM_KINDS)])      # every kind, in turn
         tagged.append((m, "malformed:" + kind))
     for g in rng.sample(wf, min(len(wf), max(4, count // 4))):
         tagged.append((unsolvable(rng, g), "unsolvable"))
